@@ -721,8 +721,8 @@ def run(ctx):
     cases = corpus_cases()
     ctx.hist("corpus", len(cases))
     evaluate(ctx, cases)
-    for kind, n in (("manifest", ctx.n(1000, 50000)), ("taglist", ctx.n(600, 20000)), ("mapping", ctx.n(800, 30000)),
-                    ("remap", ctx.n(600, 20000))):
+    for kind, n in (("manifest", ctx.n(3000, 60000)), ("taglist", ctx.n(1500, 30000)), ("mapping", ctx.n(2000, 40000)),
+                    ("remap", ctx.n(2000, 40000))):
         done = 0
         while done < n and not ctx.out_of_time():
             k = min(600, n - done)
